@@ -449,7 +449,22 @@ PROPS["C06"] = PropSpec(c06_streams,
 PROPS["C08"] = PropSpec(c08_streams,
                         _RULE % "save twice, queries, save twice, save→load→save byte comparison, queries again",
                         _PART, "save is a function of the model state; re-save equality for the exact models", _ASSUME)
-PROPS["C13"] = PropSpec(simple_dict_prop(c13_ops, ALL_KINDS, "iters"),
+def c13_streams(tier, rng):
+    base = simple_dict_prop(c13_ops, ALL_KINDS, "iters")(tier, rng)
+    # complete small universes (every string up to a length over a tiny alphabet) under EVERY bucket size:
+    # one-symbol strings become bucket headers, very short strings follow long ones, buckets end anywhere
+    dense = []
+    import itertools
+    for alpha, maxlen in (((0x61, 0x62, 0x63), 4), ((0x61, 0x62), 5), ((0x61, 0x62, 0x63, 0x64), 3)):
+        U = sorted(bytes(t) for L in range(1, maxlen + 1) for t in itertools.product(alpha, repeat=L))
+        for kind in FC_KINDS:
+            for b in range(2, (42 if tier == "thorough" else 42)):
+                ops = [["tabx"], ["tabs"], ["tab"], ["reload", "own", 1], ["tabs"], ["tab"]]
+                dense.append(("dn%d_%d_%s_b%d" % (len(alpha), maxlen, kind, b), "dict", kind, {"b": b}, U, ops))
+    return base + [StreamSet("dense", "asan", dense)]
+
+
+PROPS["C13"] = PropSpec(c13_streams,
                         _RULE % "extractTable vs extract(k), sorted table, string/ID iterators of prefix and substring searches, NUL termination and reported lengths",
                         _PART, "iterator state machines drain to the specification lists", _ASSUME)
 PROPS["C15"] = PropSpec(simple_dict_prop(c15_ops, ALL_KINDS, "meta", phases=("built", "loaded", "loaded2")),
